@@ -27,6 +27,7 @@ func checkC11(c *Ctx, r *Report) {
 	// a character literal's token is the character between its quotes: the lexer reads the literal through its closing
 	// quote before it emits (C10.d)
 	includeSome(r, "C11.d", func(sub *Report) { c10CharLiteralExtent(c, sub, "C10.d") }, "closing-quote")
+	c11LiteralValue(c, r, "C11.d")
 }
 
 func c11a(c *Ctx, r *Report) {
